@@ -91,3 +91,5 @@ func fmtList(objs []metav1.Object) string {
 }
 
 const markerNS = "zz"
+
+func sortStrings(s []string) { sort.Strings(s) }
